@@ -235,6 +235,17 @@ impl Scenario for C17 {
             spec.aux = vec![rng.below(5)];
             return spec;
         }
+        if rng.chance(1, if _tier == Tier::Quick { 470 } else { 4_700 }) {
+            // block marathon: two HC-128 cores with different keys, the text compared after EVERY block (a text
+            // that reflects what one block left in the tables - a zero table word: 2^-28 per block - shows for
+            // one block only). aux[0] = blocks per twin
+            spec.variant = "core_block_marathon".into();
+            spec.core = Some(crate::gens::CoreKind::Hc128Core);
+            spec.seed = Some(crate::gens::SeedSpec::Bytes(rng.bytes(32)));
+            spec.seed2 = Some(crate::gens::SeedSpec::Bytes(rng.bytes(32)));
+            spec.aux = vec![if _tier == Tier::Quick { 1 << 23 } else { 1 << 25 }];
+            return spec;
+        }
         if rng.chance(1, if _tier == Tier::Quick { 625 } else { 6_250 }) {
             // marathon: a rare event in the key stream itself (two equal adjacent words: 2^-32 per word) must
             // not open the text either, and cannot be crafted for a non-invertible cipher: twins with
@@ -312,6 +323,8 @@ impl Scenario for C17 {
             self.run_core(spec, st)
         } else if spec.variant == "gen_marathon" {
             self.run_marathon(spec, st)
+        } else if spec.variant == "core_block_marathon" {
+            self.run_block_marathon(spec, st)
         } else {
             self.run_gen(spec, st)
         };
@@ -473,6 +486,27 @@ impl C17 {
         st.add("probe:marathon_mebibytes", 8 * chunks);
         st.log.u64(buf[0] as u64);
         st.sig(&[kind.id(), 4242]);
+        Ok(())
+    }
+
+    fn run_block_marathon(&self, spec: &Spec, st: &mut Stats) -> Result<(), E> {
+        let bytes = |s: &Option<crate::gens::SeedSpec>| -> [u8; 32] {
+            let mut o = [0u8; 32];
+            if let Some(crate::gens::SeedSpec::Bytes(b)) = s {
+                o.copy_from_slice(&b[..32]);
+            }
+            o
+        };
+        let blocks = spec.aux.first().copied().unwrap_or(1 << 20);
+        st.add("probe:block_marathon_texts_compared", blocks);
+        st.sig(&[4444]);
+        if let Some((k, ta, tb)) = sut(crate::gens::hc128_core_block_texts(bytes(&spec.seed), bytes(&spec.seed2), blocks), "generate/debug")? {
+            return Err(E::End(viol(
+                "C17/debug_depends_on_secret",
+                "Hc128Core:debug".to_string(),
+                format!("Hc128Core after {} generate() calls: Debug text differs between two cores with different keys and the same public history: {:?} vs {:?}", k, trunc(&ta), trunc(&tb)),
+            )));
+        }
         Ok(())
     }
 
